@@ -307,7 +307,11 @@ impl Prop for C18 {
         let ip = doc_ip();
         for (entry, units, _) in targets() {
             let unit = *units.last().unwrap();
-            let st = state_for_entry(&entry, 1);
+            let mut st = state_for_entry(&entry, 1);
+            // (a reply in several parts: code that runs between the parts sees the settings too)
+            if let crate::models::family::FamState::Gs1(g) = &mut st {
+                g.parts = g.parts.max(3);
+            }
             let (faulty, _log) = Faulty::new(st.responder(), entry.family(), unit, 0, vec![Fault::Silent, Fault::Silent]);
             let run = run_scripted(Box::new(faulty), || entry.call_full(&ip, Some(27015), Some(settings)).map(|_| ()));
             match &run.ended {
@@ -371,7 +375,15 @@ impl Prop for C18 {
                 return o;
             };
             let port = server.addr.port();
-            let run = run_plain(|| entry.call_full(&lo, Some(port), capped).map(|_| ()));
+            let mut run = run_plain(|| entry.call_full(&lo, Some(port), capped).map(|_| ()));
+            // (a time-out against a healthy loopback server with a one-second timeout is scheduling noise under load: judged on up to two more runs)
+            for _ in 0 .. 2 {
+                if !matches!(run.ended, Ended::Err(GDErrorKind::PacketReceive) | Ended::Err(GDErrorKind::PacketSend) | Ended::Err(GDErrorKind::SocketConnect)) {
+                    break;
+                }
+                std::thread::sleep(Duration::from_millis(50));
+                run = run_plain(|| entry.call_full(&lo, Some(port), capped).map(|_| ()));
+            }
             if let Ended::Panic(p) = &run.ended {
                 o.fail(format!("C18|real-socket query with accepted settings|panic|{}|{}", p.site(), p.class()), json!({"entry": entry.sig_name(), "settings": format!("{capped:?}"), "panic": p}));
                 return o;
@@ -392,7 +404,15 @@ impl Prop for C18 {
             let st = crate::runner::sample_one(&crate::models::eco::eco_state().boxed(), "C18-eco", 0);
             server.set_json(&st.body());
             let port = server.port;
-            let run = run_plain(|| gamedig::games::eco::query_with_timeout(&lo, Some(port), &capped).map(|_| ()));
+            let mut run = run_plain(|| gamedig::games::eco::query_with_timeout(&lo, Some(port), &capped).map(|_| ()));
+            for _ in 0 .. 2 {
+                if !matches!(run.ended, Ended::Err(GDErrorKind::PacketReceive) | Ended::Err(GDErrorKind::PacketSend) | Ended::Err(GDErrorKind::SocketConnect)) {
+                    break;
+                }
+                std::thread::sleep(Duration::from_millis(50));
+                server.set_json(&st.body());
+                run = run_plain(|| gamedig::games::eco::query_with_timeout(&lo, Some(port), &capped).map(|_| ()));
+            }
             if let Ended::Panic(p) = &run.ended {
                 o.fail(format!("C18|HTTP query with accepted settings|panic|{}|{}", p.site(), p.class()), json!({"entry": "eco::query", "settings": format!("{capped:?}"), "panic": p}));
                 return o;
